@@ -163,6 +163,7 @@ fn systematic(ctx: &Ctx, errexit: bool) {
                     K::Case => Cmd::Case {
                         word: "ab",
                         items: vec![(vec!["c"], p(0)), (vec!["b", "a*"], cur), (vec!["*"], p(0))],
+                        terms: vec![0, 0, 0],
                     },
                     K::AndL => Cmd::AndOr(Box::new(cur), vec![(true, p(0)), (false, p(2))]),
                     K::OrR => Cmd::AndOr(Box::new(p(1)), vec![(false, cur), (true, p(0))]),
@@ -218,6 +219,7 @@ pub fn run_c02(ctx: &Ctx) {
     systematic(ctx, false);
     *ctx.exhaustive.lock().unwrap() = Some(true);
     ctlrun::drive(ctx, if ctx.quick() { 150_000 } else { 3_000_000 }, C02_CFG, "C02", false, false, 1, 0);
+    crate::checks::c02r::run(ctx);
     ctx.assume("models/ctl.rs is a faithful reading of XCU 2.9-2.15 (validated against dash and bash at development time)");
     ctx.assume("not generated: break/continue outside a lexically enclosing loop or across a function/subshell boundary, return outside a function, `! !`, probes of a non-last pipeline stage are ordered only within their own stage");
 }
